@@ -808,7 +808,7 @@ impl CanonicalizeContext {
 					// people tend to set them in a non-italic font and software makes that 'mtext'
 					CanonicalizeContext::make_roman_numeral(mathml);
 				}
-				if first_char == '-' || first_char == '\u{2212}' {
+				if (first_char == '-' || first_char == '\u{2212}') && text.len() > first_char.len_utf8() {		// a lone sign has no number to split off
 					let doc = mathml.document();
 					let mo = create_mathml_element(&doc, "mo");
 					let mn = create_mathml_element(&doc, "mn");
